@@ -137,6 +137,7 @@ def dispatch (j : Json) : Json :=
   | some "compose" => opCompose j
   | some "solverparams" => opSolverParams j
   | some "register" => opRegister j
+  | some "descend" => opDescend j
   | some "wiring" => opWiring j
   | some "split" => opSplit j
   | some "prune" => opPrune j
